@@ -154,7 +154,23 @@ func CheckDAG(c *core.Ctx, d *lref.DAG, desc string, rep Report, cfg Config, max
 	var evaluate func(node *Node, seq []int, nm uint64) bool
 	judge := func(seq []int, nm uint64) bool {
 		node := NewNode(cfg, idx.Epoch(d.Epoch), vals)
-		return feed(node, seq, 0) && evaluate(node, seq, nm)
+		if !feed(node, seq[:len(seq)-1], 0) {
+			return false
+		}
+		if !byz {
+			// Build of the edge's event must assign the frame the reference computes (the highest allowed one):
+			// events that merely CLAIM the reference's frames would hide a frame rule that allows too much
+			x := seq[len(seq)-1]
+			probe := MakeEvent(d, x, evs, 0)
+			if err, crit := node.Build(probe); err != nil || crit != "" || int(probe.Frame()) != d.Events[x].Frame {
+				rp := map[string]interface{}{"dag": d.String(), "family": desc, "order": seq}
+				if violate("ref", "ref/build-frame", rp, "Build(e%d) after %v assigns frame %d (%v %s), the reference computes %d [%s]", x, seq[:len(seq)-1], probe.Frame(), err, crit, d.Events[x].Frame, rp) {
+					return false
+				}
+			}
+			c.Count("build_frame_comparisons", 1)
+		}
+		return feed(node, seq, len(seq)-1) && evaluate(node, seq, nm)
 	}
 	// evaluate applies every oracle to an instance that processed exactly the events of nm in the order seq
 	evaluate = func(node *Node, seq []int, nm uint64) bool {
